@@ -29,6 +29,7 @@ import (
 const crlfKey = "k\r\nx"
 
 func c03Spec(tier string) *Spec {
+	h.Boot(shardNum, 1) // the command table must be registered before it is enumerated
 	ks := h.Keys(shardNum)
 	k0 := ks.K0
 	pay := []string{"a\r\nb", "", "\r\n", "+OK", "$3", "a"}
